@@ -63,6 +63,14 @@ def formulas(k, scope=()):
                     yield ('bin', op, a, b)
 
 
+def hot(f):
+    """three-connective shapes that are always enumerated: a quantifier directly over a negated binary connective and
+    a negated quantifier over a binary connective (where the splitters push negations through binders)"""
+    if f[0] == 'quant' and f[4][0] == 'un' and f[4][1] == 'not' and f[4][2][0] == 'bin':
+        return True
+    return f[0] == 'un' and f[1] == 'not' and f[2][0] == 'quant' and f[2][4][0] == 'bin'
+
+
 def fill_domains(e, rng):
     if e == ('D',):
         return gen.pick(rng, DOMAINS)
@@ -191,7 +199,7 @@ def run(ctx):
             idx += 1
             if not ctx.mine(idx):
                 continue
-            if k == 3 and rng.random() > B['k3_sample']:
+            if k == 3 and not hot(f) and rng.random() > B['k3_sample']:
                 continue
             e = fill_domains(f, rng)
             level = 'predicate' if (rng.random() < 0.25 and A.has_this(e)) else 'expression'
